@@ -474,14 +474,10 @@ func (b *RefinementBuilder) StringPrefixFull(prefix string) *RefinementBuilder {
 	// If we have a known string value then the given prefix must actually
 	// match it.
 	if b.orig.IsKnown() && !b.orig.IsNull() {
-		have := b.orig.AsString()
-		matchLen := len(have)
-		if l := len(prefix); l < matchLen {
-			matchLen = l
-		}
-		have = have[:matchLen]
-		new := prefix[:matchLen]
-		if have != new {
+		// The whole prefix must be present at the start of the known
+		// string: a prefix that is longer than the string contradicts it
+		// just as much as one that differs from it.
+		if !strings.HasPrefix(b.orig.AsString(), prefix) {
 			panic("refined prefix is inconsistent with known value")
 		}
 	}
